@@ -237,6 +237,12 @@ def load_shapes() -> List[Shape]:
         {"f1": [], "f3": [keep("/g/p5", "f5")], "f5": [call("f4")], "f4": [load("/g/p1")]},
         reads={"f1": ["v1"], "f4": ["v2"]}, vtype={"v1": "int", "v2": "int"},
         dpath={"f1": "/g/p1"}, root2="f3", tags=["producer-earlier-evaluation", "load-nested-helper"]))
+    # the producer is kept INSIDE a kept root (root 1); the reader is a separate pipeline (root 2)
+    S.append(Shape(
+        "ld_inner_producer", "f1",
+        {"f1": [call("f2")], "f2": [], "f3": [load("/i/p2")]},
+        reads={"f2": ["v1"], "f3": ["v2"]}, vtype={"v1": "int", "v2": "int"},
+        dpath={"f2": "/i/p2", "f3": "/i/p3"}, root2="f3", tags=["producer-inside-kept-root", "producer-earlier-evaluation"]))
     return S
 
 
